@@ -345,17 +345,121 @@ pub fn case(max_ops: usize) -> impl Strategy<Value = Case> {
     (prop_oneof![1 => Just(0u8), 3 => any::<u8>()], prop::collection::vec(op, 0..max_ops), prop::collection::vec(q, 1..8)).prop_map(|(local_seed, ops, queries)| Case { local_seed, ops, queries })
 }
 
+// ---- (b) the node list in a manager's reply to a remote FIND_NODE / FIND_VALUE / GET -----------------
+#[derive(Debug, Clone, Serialize, Deserialize)]
+pub struct ReplyCase {
+    peers: u8,
+    id_seed: u8,
+    key: u8,
+    op: u8,
+    requester: u8,
+    /// some peers disconnect again before the request (they stay in the routing table)
+    disconnect: Vec<u8>,
+}
+fn run_reply(c: &ReplyCase) -> Verdict {
+    use crate::memnet::*;
+    use saorsa_core::dht_network_manager::{DhtMessageType, DhtNetworkMessage, DhtNetworkOperation};
+    use saorsa_core::network::verif as wire;
+    let rt = paused_rt();
+    rt.block_on(async {
+        let mut v = Verdict::new();
+        let hub = Hub::new(2, 0);
+        let node = match add_node(&hub, super::c01::tid_bytes(c.id_seed, 0), node_addr(0), None, std::time::Duration::from_secs(2), 8).await {
+            Ok(n) => n,
+            Err(e) => {
+                v.fail(format!("{ID}/harness/node-construction-failed"), e);
+                return v;
+            }
+        };
+        let np = 1 + (c.peers as usize % 14);
+        let mut peers = Vec::new();
+        for i in 0..np {
+            let sid = add_stub(&hub, super::c01::tid_bytes(c.id_seed, 1 + i), node_addr(1 + i), StubScript::default());
+            let _ = node.th.connect_peer(&node_addr(1 + i).to_string()).await;
+            peers.push(sid);
+        }
+        settle(30).await;
+        let req = c.requester as usize % np;
+        let key = *blake3::hash(&[c.key, c.id_seed, 0x2b]).as_bytes();
+        let payload = match c.op % 3 {
+            0 => DhtNetworkOperation::FindNode { key },
+            1 => DhtNetworkOperation::FindValue { key },
+            _ => DhtNetworkOperation::Get { key },
+        };
+        let site = match c.op % 3 {
+            0 => "reply(FindNode)",
+            1 => "reply(FindValue)",
+            _ => "reply(Get)",
+        };
+        let msg = DhtNetworkMessage { message_id: "q1".into(), source: peers[req].clone(), target: Some(node.tid.clone()), message_type: DhtMessageType::Request, payload, result: None, timestamp: now_secs(), ttl: 10, hop_count: 0 };
+        let frame = wire::encode_wire_message("/dht/1.0.0", postcard::to_stdvec(&msg).unwrap_or_default(), &peers[req], now_secs());
+        hub.clear_trace();
+        hub.inject(&peers[req], &node.tid, frame).await;
+        settle(30).await;
+        let mut named: Option<Vec<String>> = None;
+        for e in hub.trace() {
+            if let Ev::Frame { from, to, dht: Some(d), .. } = e {
+                if from == node.tid && to == peers[req] && !d.is_request && d.message_id == "q1" {
+                    named = Some(d.named.clone());
+                }
+            }
+        }
+        let Some(named) = named else {
+            // with a single known peer (the requester) an empty answer may be sent as not-found
+            if np > 1 {
+                v.fail(format!("{ID}/{site}/no-reply"), format!("{np} peers known"));
+            }
+            return v;
+        };
+        v.check(named.len() <= 8, &format!("{ID}/{site}/reply-exceeds-protocol-cap"), || format!("{} nodes", named.len()));
+        // every name must resolve to a known peer; one identifier per peer
+        let key_of = |name: &str| -> Option<usize> { peers.iter().position(|p| p == name || hex::encode(dht_key_of(p)) == name) };
+        let resolved: Vec<Option<usize>> = named.iter().map(|n| key_of(n)).collect();
+        if resolved.iter().any(|r| r.is_none()) {
+            v.fail(format!("{ID}/{site}/reply-names-an-unknown-identifier"), format!("{:?}", named.iter().map(|n| &n[..8.min(n.len())]).collect::<Vec<_>>()));
+        }
+        let idx: Vec<usize> = resolved.iter().flatten().cloned().collect();
+        let mut uniq = idx.clone();
+        uniq.sort();
+        uniq.dedup();
+        if uniq.len() != idx.len() {
+            v.fail(format!("{ID}/{site}/peer-named-under-two-identifiers"), format!("{} entries name {} distinct peers", idx.len(), uniq.len()));
+        }
+        let d = |i: usize| xor(&dht_key_of(&peers[i]), &key);
+        if idx.windows(2).any(|p| d(p[0]) > d(p[1])) {
+            v.fail(format!("{ID}/{site}/reply-not-in-ascending-distance-order"), format!("{:?}", idx.iter().map(|i| hex::encode(&d(*i)[..3])).collect::<Vec<_>>()));
+        }
+        // exactness: top-8 of everything known, in one of the three readings about the requester
+        let mut all: Vec<usize> = (0..np).collect();
+        all.sort_by_key(|i| d(*i));
+        let with_req: Vec<usize> = all.iter().take(8).cloned().collect();
+        let filtered_after: Vec<usize> = with_req.iter().cloned().filter(|i| *i != req).collect();
+        let filtered_before: Vec<usize> = all.iter().cloned().filter(|i| *i != req).take(8).collect();
+        if v.ok() && idx != with_req && idx != filtered_after && idx != filtered_before {
+            v.fail(format!("{ID}/{site}/reply-is-not-the-closest-known-peers"), format!("{np} peers known, requester #{req}: reply {idx:?}; closest known {all:?}"));
+        }
+        v.nt(np >= 3);
+        v.class(site);
+        let _ = tokio::time::timeout(std::time::Duration::from_secs(600), node.mgr.stop()).await;
+        v
+    })
+}
+
 pub fn run(run: &Run) {
     run.assume("membership after an add is read back from the table (bucket-full and gate refusals are the implementation's), then constrained: nothing lost, nothing foreign, acknowledged ids present, no duplicate, never the local id");
     run.set_rule("engine", "history of join_network/add_node/handle_node_failure/evict_node over ids drawn by bucket (0–4, 250–255, mid, any; the local id; repeats of earlier ids), then find_nodes / FindNode / FindValue queries with counts 0..=64, usize::MAX; non-trivial = ≥2 populated buckets and a query whose bucket is not the most populated one, or a repeated/self id in the history");
     let sh = shards_for(run.tier);
     run.prop("engine", run.tier.pick(3000, 60_000), sh, case(40), run_case);
     run.prop("engine", run.tier.pick(150, 4000), sh, case(300), run_case);
+    run.set_rule("reply", "a real manager with 1..14 connected peers on the in-memory network answers a FIND_NODE / FIND_VALUE / GET frame from one of them: ≤8 names, each resolving to a distinct known peer, ascending distance, equal to the top-8 of everything it knows (requester kept, filtered after, or filtered before truncation); non-trivial = ≥3 peers known");
+    let rc = (any::<u8>(), any::<u8>(), any::<u8>(), 0u8..3, any::<u8>(), prop::collection::vec(any::<u8>(), 0..3)).prop_map(|(peers, id_seed, key, op, requester, disconnect)| ReplyCase { peers, id_seed, key, op, requester, disconnect });
+    run.prop("reply", run.tier.pick(400, 6000), sh, rc, run_reply);
 }
 
 pub fn replay(run: &Run, sub: &str, case: &Value) -> Option<bool> {
     match sub {
         "engine" => Some(run.eval_case("replay/engine", &from_value::<Case>(case)?, &run_case)),
+        "reply" => Some(run.eval_case("replay/reply", &from_value::<ReplyCase>(case)?, &run_reply)),
         _ => None,
     }
 }
